@@ -1,14 +1,14 @@
 #!/venv/bin/python
-"""Round 3: copy /tmp/seed3_<Cxx>/seeded_out/{a,b} into /verif/seeded/<Cxx>_<next free letter>/; mapping kept in tools/round3.json.
+"""Round 6: copy /tmp/seed6_<Cxx>/seeded_out/{a,b} into /verif/seeded/<Cxx>_<next free letter>/; mapping kept in tools/round6.json.
 usage: tools/seeded_import3.py C05 [a|b ...]"""
 import os, sys, json, shutil, subprocess, glob
 HERE = os.path.dirname(os.path.dirname(os.path.abspath(__file__)))
-mp = os.path.join(HERE, 'tools', 'round3.json')
+mp = os.path.join(HERE, 'tools', 'round6.json')
 M = json.load(open(mp)) if os.path.exists(mp) else {}
 pid = sys.argv[1]
 variants = sys.argv[2:] or ['a', 'b']
 for v in variants:
-    src = '/tmp/seed3_%s/seeded_out/%s' % (pid, v)
+    src = '/tmp/seed6_%s/seeded_out/%s' % (pid, v)
     if not os.path.exists(src + '/patch.diff'):
         print('missing', src); continue
     sid = next((k for k, val in M.items() if val == [pid, v]), None)
